@@ -535,7 +535,8 @@ func toInt(v any) (int, bool, bool) {
 
 		return int(i), true, true
 	case float32:
-		if v > math.MaxInt || v < math.MinInt {
+		// math.MaxInt rounds up to 2^63 as a float, which is itself out of range
+		if v >= math.MaxInt || v < math.MinInt {
 			return 0, true, false
 		}
 
@@ -545,7 +546,7 @@ func toInt(v any) (int, bool, bool) {
 
 		return int(v), true, true
 	case float64:
-		if v > math.MaxInt || v < math.MinInt {
+		if v >= math.MaxInt || v < math.MinInt {
 			return 0, true, false
 		}
 
